@@ -26,6 +26,13 @@ def setInsert {α : Type} [BEq α] (d : List α) (k : α) : List α := if d.cont
 /-- `d.pop(k, None)` on a dict used as an insertion-ordered set -/
 def setDiscard {α : Type} [BEq α] (d : List α) (k : α) : List α := d.filter fun x => !(x == k)
 
+/-- `t[i][j]` on a 2-D table (list of rows) for indices within `0..len-1` (negative indices / `IndexError`: outside the subset) -/
+def get2 {α : Type} [Inhabited α] (t : List (List α)) (i j : Int) : α := ((t.getD i.toNat []).getD j.toNat default)
+
+/-- `t[i][j] = v` (also `t[i, j] = v` on a numpy 2-D array) for indices within `0..len-1` -/
+def set2 {α : Type} (t : List (List α)) (i j : Int) (v : α) : List (List α) :=
+  t.set i.toNat ((t.getD i.toNat []).set j.toNat v)
+
 /-- `itertools.product(xs, repeat=n)` in iteration order -/
 def productRepeat {α : Type} (xs : List α) : Nat → List (List α)
   | 0 => [[]]
